@@ -60,6 +60,12 @@ def getitem {α : Type} [Inhabited α] (row : Row) (h : Heap) (c : Cat α) (idx 
       some (⟨labs, cache, h.length⟩, h ++ [h.getD c.extras []])
     else some (⟨labs, cache, c.extras⟩, h)
 
+/-- `get_labels(ls)` / `get_ids(ls)`: positions of the requested labels in THIS catalogue, in request order;
+    `none` = ValueError, raised when a requested label is not held by the catalogue -/
+def labelPositions (labels : List Nat) : List Nat → Option (List Nat)
+  | [] => some []
+  | l :: ls => if labels.contains l then (labelPositions labels ls).map (labels.idxOf l :: ·) else none
+
 def addExtra (h : Heap) (addr : Nat) (name : String) : Heap := h.set addr (h.getD addr [] ++ [name])
 def removeExtra (h : Heap) (addr : Nat) (name : String) : Heap := h.set addr ((h.getD addr []).filter (· ≠ name))
 
